@@ -1,4 +1,6 @@
 CONSTANTS
+  TIMEOUTS = FALSE
+  NOTIFYEXIT = TRUE
   FIXED = TRUE
   FIXALL = FALSE
 SPECIFICATION Spec
